@@ -250,6 +250,12 @@ func (di *DescriptionBlock) Unpack(data []byte) (n uint, err error) {
 			return 0, err
 		}
 
+		// A block is at least its two header bytes long (anything shorter would never advance)
+		// and must lie within the data.
+		if length < 2 || n+uint(length) > uint(len(data)) {
+			return 0, errors.New("description block length is invalid")
+		}
+
 		switch ty {
 		case DescriptionTypeDeviceInfo:
 			_, err = di.DeviceHardware.Unpack(data[n : n+uint(length)])
@@ -270,7 +276,7 @@ func (di *DescriptionBlock) Unpack(data []byte) (n uint, err error) {
 			u := UnknownDescriptionBlock{Type: ty}
 
 			// known DIBs without data will be silently ignored.
-			if length > 2 {
+			if length > 4 {
 				_, err = u.Unpack(data[n+2 : n+uint(length)-2])
 				if err != nil {
 					return 0, err
